@@ -1,6 +1,6 @@
 """C13 — Parsing respects the grammar (structural clauses)."""
 
-from ..rules import frontend, tables
+from ..rules import frontend, tables, textparse
 
 
 def run(ctx, rep):
@@ -9,6 +9,7 @@ def run(ctx, rep):
     tables.rule_precedence(ctx, rep, "C13-R3")
     frontend.rule_duplicated_paths(ctx, rep, "C13-R4")
     tables.rule_keyword_tables(ctx, rep, "C13-R5")
+    textparse.rule_ascii_digit_scanners(ctx, rep, "C13-R6", modules=("lexer",))
     rep.undecided += [
         "layout independence and print/parse round trip over all token sequences (no printer exists in the repo; generative/differential property)",
         "alternative literal spellings denote the same value (value property)",
